@@ -140,8 +140,19 @@ def receive_failure_real_dispatchers(r):
     realnet.validate(r, runs)
 
 
+def failure_sites_full_stack(r):
+    """Every layer of the full protocol stack as the failure site (harness/failsites.py)."""
+    from harness import failsites
+    from yowsup.layers.protocol_messages.protocolentities import TextMessageProtocolEntity
+    from yowsup.layers.protocol_messages.protocolentities.attributes.attributes_message_meta import MessageMetaAttributes
+    rng = random.Random(core.seed() + 120)
+    failsites.sweep(r, rng, r.tier == "thorough",
+                    lambda mid, to: TextMessageProtocolEntity(u"body of %s \u2713" % mid, MessageMetaAttributes(id=mid, recipient=to)))
+
+
 def extras(r):
     receive_failure_real_dispatchers(r)      # real threads: before any deterministic scheduler is installed
+    failure_sites_full_stack(r)
     keepalive_callback_failure(r)
     redundant_disconnect(r)
     key_request_failure(r)
